@@ -154,3 +154,41 @@ func DeviationScenarios(bases []Scenario, d int, workBase string, maxPairs int) 
 	}
 	return out, info
 }
+
+// CrashScenarios: every base is run once to count the durable writes of each
+// node; then the base is combined with a crash of each honest node at every
+// stepK-th write (restart at once, and after the others went on).
+func CrashScenarios(bases []Scenario, workBase string, stepK int, delays []int) ([]*Scenario, map[string]int) {
+	var refs []*Scenario
+	for i := range bases {
+		b := bases[i]
+		b.Mode = "nohash"
+		b.ID = i
+		refs = append(refs, &b)
+	}
+	writes := map[int]map[string]int{}
+	RunPool(refs, PoolOpts{WorkBase: workBase}, func(o CaseOutcome) {
+		if o.Res != nil {
+			writes[o.Sc.ID] = o.Res.Writes
+		}
+	})
+	var out []*Scenario
+	info := map[string]int{}
+	for bi, b := range bases {
+		for n := range b.Powers {
+			if n == b.Byz {
+				continue
+			}
+			w := writes[bi][fmt.Sprintf("n%d", n)]
+			info[fmt.Sprintf("base%d_n%d_writes", bi, n)] = w
+			for k := 1; k <= w; k += stepK {
+				for _, d := range delays {
+					sc := b
+					sc.Rules = append(append([]Rule{}, b.Rules...), Rule{Kind: "crash", Node: n, K: k, Delay: d})
+					out = append(out, &sc)
+				}
+			}
+		}
+	}
+	return out, info
+}
